@@ -257,7 +257,7 @@ theorem safe_nextEpoch_core (hlaw : UnitMulLe W) (hpick : PickLaw W) (S : List N
       have hnp := ho.parents _ hlen
       rcases List.take_eq_nil_iff.mp htake with h0 | h0
       · omega
-      · have hperm := (goInsertionSort_perm (fun a b => orgLess b a)
+      · have hperm := (goSort_perm (fun a b => orgLess b a)
           (s0.orgs.map (fun x => { x with originalFitness := x.fitness, fitness := adjustedFitness o s0 x.fitness }))).length_eq
         unfold sortedAdjusted sortOrgsDesc at h0
         rw [h0] at hperm
